@@ -111,6 +111,17 @@ pub fn run(run: &mut Run) -> PResult {
         let t = poker::tables();
         let items: Vec<[u32; 5]> = (1..=7462usize).map(|v| words_of_ci(&t.rep[v])).collect();
         disturbance_pass(run, &items, &|w| examine(w).map_err(|(c, m)| format!("{}: {}", c, m)), &|w| ("C13.predicates".into(), hand_json(w), card::render_hand(w)))?;
+        // the hands on both sides of the straight / not-a-straight boundary are the ones a hit counter
+        // carrying into a neighbouring rank pattern would make visible: all 20 straight classes and
+        // the classes next to them, 66,000 lookups each
+        let mut picks: Vec<(usize, usize)> = Vec::new();
+        for o in (1..=10usize).chain(1600..=1609) {
+            picks.push((o - 1, 66_000));
+        }
+        for o in [323usize, 324, 6186, 6187, 6190, 6200, 1599, 1610, 7462] {
+            picks.push((o - 1, 66_000));
+        }
+        repetition_soak(run, &items, &picks, &|w| examine(w).map_err(|(c, m)| format!("{}: {}", c, m)), &|w| ("C13.predicates".into(), hand_json(w), card::render_hand(w)))?;
     }
     if !run.is_twin() {
         // call sequences: the predicates (deprecated free functions included) must not depend on earlier calls
